@@ -764,6 +764,12 @@ func (e *Env) enterBlock(fr *Frame, st *State, b *ssa.BasicBlock, prev *ssa.Basi
 	if li := e.loopInfo(fr.fn).headers[b]; li != nil {
 		return e.enterLoop(fr, st, b, prev, li)
 	}
+	if prev != nil && fr.depth == 0 {
+		// leaving a loop through its header's exit edge: the loop ran to completion on this path
+		if pl := e.loopInfo(fr.fn).headers[prev]; pl != nil && !pl.blocks[b] {
+			st.loopsDone = append(append([]int(nil), st.loopsDone...), pl.ordinal)
+		}
+	}
 	e.assignPhis(fr, st, b, prev)
 	return e.runFrom(fr, st, b, 0, prev)
 }
